@@ -25,7 +25,8 @@ the command line says what must happen; each departure is a class of exactly one
   C06  on success the output length equals the source length (regular files); over HTTP (fixed 4-byte chunk
        archives, where a three-line model says which chunks the prior output and the seed hold) the bytes
        requested beyond the header are exactly the stored bytes of the missing chunks, each once
-  C07  ... and they are requested as the maximal runs of adjacent missing chunks, in archive order
+  C07  ... and they are requested as the maximal runs of adjacent missing chunks, in archive order; on the cells that carry a retry
+       budget the first chunk-data response is cut after 2 bytes: the follow-up request asks for the rest of that run and no more
   C16  nothing but the output path is created, changed or removed in the directory
   C12  compress: the archive written equals the archive of the same source and options written to
        a fresh path (whatever was at the path before, file or stdin input, verbosity)
@@ -46,6 +47,7 @@ from concurrent.futures import ThreadPoolExecutor
 from httpserv import RangeServer
 
 LEG = "cligrid"
+CUTS = {}   # clone cell -> first byte of the chunk-data request whose response was cut
 FACETS = {
     "C14": ("refusal-expected-but-exit-zero", "refused-but-output-changed", "refused-but-files-created"),
     "C02": ("valid-clone-failed", "success-with-wrong-output"),
@@ -304,6 +306,11 @@ def expected_runs(cell, kind, src, prior, seed_data, ab):
 
 def judge_requests(cell, idx, kind, src, prior, seed_data, ab, server, viol, detail):
     h, want = expected_runs(cell, kind, src, prior, seed_data, ab)
+    cut = CUTS.get(idx)
+    if cut is not None:
+        # the first chunk-data response of this cell was cut after 2 bytes: the follow-up request starts at the
+        # first missing byte and keeps the run's end
+        want = [w2 for w in want for w2 in ([w, (w[0] + 2, w[1])] if w[0] == cut else [w])]
     got = []
     for _, rng in server.requests_for(f"cell={idx:05d}"):
         if not rng or not rng.startswith("bytes="):
@@ -325,7 +332,7 @@ def judge_requests(cell, idx, kind, src, prior, seed_data, ab, server, viol, det
                 return None
             c += list(range(r[0], r[1] + 1))
         return sorted(c)
-    if cover(got) != cover(want):
+    if cover(got) is None or cover(want) is None or sorted(set(cover(got))) != sorted(set(cover(want))) or (cut is None and cover(got) != cover(want)):
         viol.add("grid-bytes-fetched-differ-from-missing-chunks", d)
     else:
         viol.add("grid-requests-differ-from-maximal-runs", d)
@@ -453,7 +460,24 @@ def grid(ctx, only_cell=None):
         jobs = [("clone", i, c) for i, c in enumerate(ccells)] + [("compress", i, c) for i, c in enumerate(zcells)]
         if only_cell is not None:
             jobs = [j for j in jobs if {k: v for k, v in j[2].items()} == only_cell]
-        with RangeServer(files) as server:
+        CUTS.clear()
+        hdr = {f"{a[0]}.cba": header_len(files[f"{a[0]}.cba"]) for a in ARCHIVES}
+
+        def behaviour(index, path, rng):
+            # cells that carry a retry budget: the first chunk-data response is cut after 2 bytes (once per cell)
+            import re
+            m = re.search(r"/([^/?]+)\?cell=(\d+)", path)
+            if not m or not rng or not rng.startswith("bytes="):
+                return None
+            name, idx = m.group(1), int(m.group(2))
+            if idx >= len(ccells) or not ccells[idx].get("retry") or ARCHIVES[ccells[idx]["archive"]][2] != "words":
+                return None
+            a, _, b = rng[6:].partition("-")
+            if not b or int(b) < hdr[name] or idx in CUTS:
+                return None
+            CUTS[idx] = int(a)
+            return {"close_after": 2}
+        with RangeServer(files, behaviour=behaviour) as server:
             def one(job):
                 kind, i, c = job
                 if kind == "clone":
